@@ -1781,3 +1781,196 @@ Proof.
   vm_compute. split; [reflexivity|]. split; [reflexivity|]. split; [discriminate|].
   repeat constructor; discriminate.
 Qed.
+
+(* ------------------------------------------------------------------------------------------ *)
+(* a body over the limit always comes with INBOUND_DATA_ERROR                                  *)
+(* ------------------------------------------------------------------------------------------ *)
+
+Section LimitWithParser.
+Variable parse : bytes -> presult.
+
+Lemma run_processor_inbound V S c w : t_inbound (w_tx (snd (run_processor parse V S c w))) = t_inbound (w_tx w).
+Proof.
+  assert (BR : forall w, w_tx (snd (body_read S w)) = w_tx w).
+  { intro w0. pose proof (body_read_spec S w0) as H. destruct (body_read S w0); cbn in *. apply H. }
+  unfold run_processor. destruct (c_proc c).
+  - reflexivity.
+  - rewrite BR; reflexivity.
+  - pose proof (BR w) as H. destruct (body_read S w) as [rd w0]; cbn in *. destruct rd; cbn; rewrite H; reflexivity.
+  - generalize (pr_ok (parse (stored_body w))) as ok. generalize (@nil nat) as opened.
+    generalize (pr_parts (parse (stored_body w))) as parts. intro parts. revert w.
+    assert (C : forall o w1, w_tx (close_all S o w1) = w_tx w1)
+      by (intros o w1; apply (close_all_spec (fun _ => True) S o (fun _ _ => I) w1)).
+    induction parts as [|p rest IH]; intros w opened ok; cbn [mp_loop].
+    + pose proof (BR w) as H. destruct (body_read S w) as [rd w0]; cbn in H.
+      destruct rd; cbn; [destruct ok; cbn|]; rewrite C; cbn; rewrite H; reflexivity.
+    + pose proof (BR w) as H. destruct (body_read S w) as [rd w0]; cbn in H.
+      destruct rd; cbn [negb].
+      2:{ cbn. rewrite C. cbn. rewrite H. reflexivity. }
+      destruct p as [|size].
+      * specialize (IH w0 opened ok). rewrite H in IH. exact IH.
+      * pose proof (fs_create_spec S TUpload DUpload w0) as Hc.
+        destruct (fs_create S TUpload DUpload w0) as [r w1]; cbn in Hc.
+        destruct Hc as (Htx1 & _ & _ & [(Hr & _)|(Hr & _)]); subst r.
+        { cbn. rewrite C. cbn. rewrite Htx1, H. reflexivity. }
+        set (w2 := if v_mp_fixed V then _ else w1).
+        assert (Hw2 : t_inbound (w_tx w2) = t_inbound (w_tx w))
+          by (subst w2; destruct (v_mp_fixed V); cbn; rewrite Htx1, H; reflexivity).
+        pose proof (fs_write_spec S TUpload (fs_next (w_fs w0)) (repeat 0%N size) w2) as Hs.
+        destruct (fs_write S TUpload (fs_next (w_fs w0)) (repeat 0%N size) w2) as [okw w3]; cbn in Hs.
+        destruct Hs as (Htx3 & _).
+        destruct okw; cbn [negb].
+        2:{ cbn. rewrite C. cbn. rewrite Htx3. exact Hw2. }
+        match goal with |- context [mp_loop V S rest ok ?o ?ww] => specialize (IH ww o ok); set (w5 := ww) in * end.
+        assert (Hw5 : t_inbound (w_tx w5) = t_inbound (w_tx w)).
+        { subst w5. destruct (v_mp_fixed V); cbn; rewrite Htx3; exact Hw2. }
+        congruence.
+Qed.
+
+
+Lemma bb_write_tx S c d w : exists b', w_tx (snd (bb_write S c d w)) = set_buf b' (w_tx w) /\
+  (bb_len b' = bb_len (wbuf w) \/ bb_len b' = bb_len (wbuf w) + length d).
+Proof.
+  assert (SB : forall t, set_buf (t_buf t) t = t) by (intros []; reflexivity).
+  unfold bb_write.
+  destruct (length d =? 0). { exists (wbuf w). unfold wbuf. rewrite SB. auto. }
+  destruct (c_limit c <? bb_len (wbuf w) + length d). { exists (wbuf w). unfold wbuf. rewrite SB. auto. }
+  destruct (c_mem c <? bb_len (wbuf w) + length d).
+  2:{ eexists. split; [reflexivity|]. cbn. auto. }
+  destruct (bb_writer (wbuf w)) as [id|].
+  - set (w1 := w_set_buf _ w).
+    pose proof (fs_write_spec S TSpill id d w1) as Hs.
+    destruct (fs_write S TSpill id d w1) as [ok w2]; cbn in Hs. destruct Hs as (Htx & _). cbn [snd].
+    eexists. split; [rewrite Htx; reflexivity|]. cbn. auto.
+  - pose proof (fs_create_spec S TSpill DTmp w) as Hc.
+    destruct (fs_create S TSpill DTmp w) as [r w1]; cbn in Hc.
+    destruct Hc as (Htx1 & _ & _ & [(Hr & _)|(Hr & _)]); subst r.
+    + exists (wbuf w). cbn. rewrite Htx1. unfold wbuf. rewrite SB. auto.
+    + set (w2 := w_set_buf _ w1).
+      pose proof (fs_write_spec S TSpill (fs_next (w_fs w)) (bb_mem (wbuf w)) w2) as Hs.
+      destruct (fs_write S TSpill (fs_next (w_fs w)) (bb_mem (wbuf w)) w2) as [ok w3]; cbn in Hs.
+      destruct Hs as (Htx3 & _).
+      destruct ok.
+      * set (w4 := w_set_buf _ w3).
+        pose proof (fs_write_spec S TSpill (fs_next (w_fs w)) d w4) as Hs5.
+        destruct (fs_write S TSpill (fs_next (w_fs w)) d w4) as [ok5 w5]; cbn in Hs5. destruct Hs5 as (Htx5 & _).
+        cbn [snd]. eexists. split; [rewrite Htx5; unfold w4, w_set_buf; cbn; rewrite Htx3; unfold w2, w_set_buf; cbn; rewrite Htx1; reflexivity|].
+        cbn. auto.
+      * cbn [snd]. eexists. split; [rewrite Htx3; unfold w2, w_set_buf; cbn; rewrite Htx1; reflexivity|]. cbn. auto.
+Qed.
+
+Lemma process_body_inbound V S c w :
+  t_inbound (w_tx (fst (process_body parse V S c w))) = t_inbound (w_tx w) /\
+  t_buf (w_tx (fst (process_body parse V S c w))) = t_buf (w_tx w).
+Proof.
+  unfold process_body.
+  destruct (t_intr (w_tx w)); [auto|].
+  destruct (negb (t_phase (w_tx w) =? 1)). { destruct (t_phase (w_tx w) =? 2); auto. }
+  destruct (bb_len (t_buf (w_tx w)) =? 0); [auto|].
+  assert (G : forall okw1, run_processor parse V S c w = okw1 ->
+     let w' := fst (if fst okw1 then eval2 c (snd okw1)
+                    else eval2 c (set_tx (set_rberr (w_tx (snd okw1))) (add_log LgProc (snd okw1)))) in
+     t_inbound (w_tx w') = t_inbound (w_tx w) /\ t_buf (w_tx w') = t_buf (w_tx w)).
+  { intros [ok w1] E. pose proof (run_processor_inbound V S c w) as H1. pose proof (run_processor_buf parse V S c w) as H2.
+    rewrite E in H1, H2. cbn [fst snd] in *. destruct ok; cbn; auto. }
+  destruct (c_proc c) eqn:Ep; try (cbn; auto; fail);
+    specialize (G _ eq_refl); destruct (run_processor parse V S c w) as [ok w1]; exact G.
+Qed.
+
+(* INBOUND_DATA_ERROR is raised by every WriteRequestBody that reaches the limit, and the buffer
+   never holds more than... exactly: it holds [limit] bytes only with the signal raised *)
+Definition limit_inv (c : cfg) (w : world) : Prop :=
+  bb_len (wbuf w) = c_limit c -> t_inbound (w_tx w) = true.
+
+Lemma write_body_limit V S c d w :
+  limit_inv c w ->
+  let w' := fst (write_body parse V S c d w) in
+  limit_inv c w' /\ (t_inbound (w_tx w) = true -> t_inbound (w_tx w') = true) /\
+  (c_limit c <= bb_len (wbuf w) + length d -> t_inbound (w_tx w') = true).
+Proof.
+  intro I. unfold write_body.
+  destruct (c_limit c =? bb_len (t_buf (w_tx w))) eqn:El.
+  { apply Nat.eqb_eq in El. cbn [fst]. repeat split; auto; try (intros _; apply I; unfold wbuf; auto). }
+  apply Nat.eqb_neq in El.
+  set (over := c_limit c <=? bb_len (t_buf (w_tx w)) + length d).
+  destruct over eqn:Eo; subst over.
+  - cbn [andb].
+    set (w1 := set_tx (set_inbound (w_tx w)) w).
+    destruct (c_reject c).
+    { cbn. unfold limit_inv. cbn. auto. }
+    destruct (bb_write_tx S c (firstn (c_limit c - bb_len (t_buf (w_tx w))) d) w1) as (b' & Hb & _).
+    destruct (bb_write S c (firstn (c_limit c - bb_len (t_buf (w_tx w))) d) w1) as [ok w2]. cbn [snd] in Hb.
+    assert (H2 : t_inbound (w_tx w2) = true) by (rewrite Hb; reflexivity).
+    destruct ok; cbn [negb].
+    + pose proof (process_body_inbound V S c (add_log LgPartial w2)) as [P1 _].
+      destruct (process_body parse V S c (add_log LgPartial w2)) as [w3 r3]. cbn in *.
+      assert (H3 : t_inbound (w_tx w3) = true) by congruence. unfold limit_inv. auto.
+    + cbn. unfold limit_inv. auto.
+  - cbn [andb]. apply Nat.leb_gt in Eo.
+    destruct (bb_write_tx S c (firstn (length d) d) w) as (b' & Hb & Hl).
+    destruct (bb_write S c (firstn (length d) d) w) as [ok w2]. cbn [snd] in Hb.
+    rewrite firstn_all in Hl. unfold wbuf in Hl.
+    assert (HL : limit_inv c w2 /\ (t_inbound (w_tx w) = true -> t_inbound (w_tx w2) = true)).
+    { unfold limit_inv, wbuf. rewrite Hb. cbn. split; [|auto]. intro E. exfalso. destruct Hl as [Hl|Hl]; rewrite Hl in E; [apply El; symmetry; exact E | rewrite E in Eo; exact (Nat.lt_irrefl _ Eo)]. }
+    destruct ok; cbn [negb fst]; (split; [apply HL | split; [apply HL | intro HH; unfold wbuf in HH; lia]]).
+Qed.
+
+Lemma step_limit V S c k w : limit_inv c w ->
+  limit_inv c (fst (step parse V S c k w)) /\
+  (t_inbound (w_tx w) = true -> t_inbound (w_tx (fst (step parse V S c k w))) = true).
+Proof.
+  intro I. unfold step.
+  assert (I0 : limit_inv c (begin_call w)) by exact I.
+  destruct k.
+  - unfold process_headers. destruct (1 <=? t_phase (w_tx (begin_call w))); [cbn; auto|].
+    destruct (t_intr (w_tx (begin_call w))); cbn; auto.
+  - destruct (write_body_limit V S c data (begin_call w) I0) as (A & B & _).
+    destruct (write_body parse V S c data (begin_call w)) as [w1 r]. cbn in *. auto.
+  - destruct (process_body_inbound V S c (begin_call w)) as [P1 P2].
+    destruct (process_body parse V S c (begin_call w)) as [w1 r]. cbn in *.
+    unfold limit_inv, wbuf in *. cbn. rewrite P1, P2. auto.
+  - assert (H : w_tx (fst (process_logging V S c (begin_call w))) = set_phase 5 (w_tx w)).
+    { unfold process_logging.
+      set (w00 := set_tx (set_phase 5 (w_tx (begin_call w))) (begin_call w)).
+      assert (A0 : w_tx (audit_body_read V S c w00) = set_phase 5 (w_tx w))
+        by (destruct (audit_body_read_spec V S c w00) as (_ & Htx & _); rewrite Htx; reflexivity).
+      assert (AR : forall r w1, w_tx (audit_result V r w1) = w_tx w1)
+        by (intros r w1; unfold audit_result; destruct r; [destruct (v_audit_fixed V)|]; reflexivity).
+      assert (DO : forall k t o l w1, w_tx (snd (do_op S k t o l w1)) = w_tx w1) by reflexivity.
+      destruct (c_audit c).
+      - reflexivity.
+      - pose proof (DO OWrite TAuditSerial 0 0 (audit_body_read V S c w00)) as D1.
+        destruct (do_op S OWrite TAuditSerial 0 0 (audit_body_read V S c w00)) as [r w1]. cbn in *. rewrite AR. congruence.
+      - pose proof (DO OCreate TAuditRec 0 0 (audit_body_read V S c w00)) as D1.
+        destruct (do_op S OCreate TAuditRec 0 0 (audit_body_read V S c w00)) as [r1 w1]. cbn in D1.
+        destruct r1; [cbn; congruence|].
+        pose proof (DO OWrite TAuditRec 0 0 w1) as D2. destruct (do_op S OWrite TAuditRec 0 0 w1) as [r2 w2]. cbn in D2.
+        destruct r2; [cbn; congruence|].
+        pose proof (DO OWrite TAuditIdx 0 0 w2) as D3. destruct (do_op S OWrite TAuditIdx 0 0 w2) as [r3 w3]. cbn in *.
+        rewrite AR. congruence. }
+    destruct (process_logging V S c (begin_call w)) as [w1 r]. cbn in *.
+    unfold limit_inv, wbuf in *. cbn. rewrite H. cbn. auto.
+Qed.
+
+Lemma run_limit V S c l : forall w, limit_inv c w -> limit_inv c (run parse V S c l w).
+Proof.
+  induction l as [|k r IH]; intros w I; cbn [run]; [exact I|]. apply IH. apply step_limit. exact I.
+Qed.
+
+(* after ANY call list from a fresh transaction: a WriteRequestBody whose data reaches or exceeds
+   the limit (so at least one byte may be dropped, or the buffer is exactly full) leaves
+   INBOUND_DATA_ERROR = 1 - in particular when earlier chunks filled the buffer EXACTLY *)
+Lemma over_limit_surfaces V S c l fs d : 0 < c_limit c ->
+  let w := run parse V S c l (init_world fs) in
+  c_limit c <= bb_len (wbuf w) + length d ->
+  t_inbound (w_tx (fst (step parse V S c (CWrite d) w))) = true.
+Proof.
+  intros L w H.
+  assert (I : limit_inv c w).
+  { apply run_limit. unfold limit_inv; cbn. intro E. lia. }
+  unfold step.
+  destruct (write_body_limit V S c d (begin_call w) I) as (_ & _ & A).
+  destruct (write_body parse V S c d (begin_call w)) as [w1 r]. cbn in *. apply A. exact H.
+Qed.
+
+End LimitWithParser.
